@@ -339,6 +339,14 @@ class Script:
             and len(self.commands[1]) == 32
         )
 
+    def is_push_only(self):
+        """Returns whether the script consists only of data pushes
+        (elements and op codes up to OP_16)"""
+        for command in self.commands:
+            if isinstance(command, int) and command > 96:
+                return False
+        return True
+
     def has_op_return(self):
         return 106 in self.commands
 
